@@ -93,16 +93,20 @@ def mpPart (part : Bytes) : R (Bytes × Bytes) :=
       if !endsWith content CRLF then .error .decodeError
       else .ok (headers, content.take (content.length - 2))
 
-def mpParts : List Bytes → R (List (Bytes × Bytes))
+/-- the loop over the parts: each part is cut, then its header block is handed to `chk` (the code parses it into
+    a `Headers` object before it looks at the next part, so that error comes first) -/
+def mpParts (chk : Bytes → R Unit) : List Bytes → R (List (Bytes × Bytes))
   | [] => .ok []
   | p :: ps => match mpPart p with
     | .error e => .error e
-    | .ok x => match mpParts ps with
+    | .ok x => match chk x.1 with
       | .error e => .error e
-      | .ok xs => .ok (x :: xs)
+      | .ok _ => match mpParts chk ps with
+        | .error e => .error e
+        | .ok xs => .ok (x :: xs)
 
-/-- `Multipart.decode` down to (header block, content) pairs -/
-def mpDecode (boundary : Bytes) (data : Bytes) : R (List (Bytes × Bytes)) :=
+/-- `Multipart.decode` down to (header block, content) pairs; `chk` stands for `Headers.parse` of a block -/
+def mpDecodeWith (chk : Bytes → R Unit) (boundary : Bytes) (data : Bytes) : R (List (Bytes × Bytes)) :=
   match pySplit (delim boundary) (data.length + 1) data with
   | [] => .error indexError                  -- unreachable: split never returns []
   | first :: rest =>
@@ -111,7 +115,10 @@ def mpDecode (boundary : Bytes) (data : Bytes) : R (List (Bytes × Bytes)) :=
       | none => .error indexError              -- no delimiter at all: `parts.pop()` on an empty list
       | some last =>
         if last != [0x2D, 0x2D] && last != [0x2D, 0x2D] ++ CRLF then .error .decodeError
-        else mpParts rest.dropLast
+        else mpParts chk rest.dropLast
+
+/-- the octet-level framing alone (every header block accepted) -/
+def mpDecode (boundary : Bytes) (data : Bytes) : R (List (Bytes × Bytes)) := mpDecodeWith (fun _ => .ok ()) boundary data
 
 /-! ### text/plain -/
 
